@@ -138,6 +138,13 @@ def alpha_normalise_bound(t: Any) -> Any:
 
 def show(t: Any, depth: int = 0) -> str:
     """Human-readable rendering of a term (for reports)."""
+    try:
+        return _show(t, depth)
+    except (IndexError, TypeError, KeyError):
+        return repr(t)[:400]
+
+
+def _show(t: Any, depth: int = 0) -> str:
     if not isinstance(t, tuple):
         return repr(t)
     if not is_term(t):
